@@ -14,6 +14,7 @@ import (
 	"os"
 	"path/filepath"
 	"sort"
+	"strings"
 )
 
 type spec struct {
@@ -59,8 +60,8 @@ func structFields(f *ast.File, typ string) []string {
 				case *ast.SelectorExpr:
 					out = append(out, t.Sel.Name)
 				case *ast.StarExpr:
-					if id, ok := t.X.(*ast.Ident); ok {
-						out = append(out, id.Name)
+					if n := typeName(t.X); n != "" {
+						out = append(out, n)
 					}
 				}
 			}
@@ -189,6 +190,409 @@ func main() {
 		}
 		out[sp.Name] = map[string]any{"fields": fields, "encoded": keys(encoded), "decoded": keys(decoded)}
 	}
-	b, _ := json.Marshal(map[string]any{"structs": out})
+	extra(repo, fset, out)
+	b, _ := json.Marshal(map[string]any{"structs": out, "nodes": planNodes(repo, fset)})
 	fmt.Println(string(b))
+}
+
+// ---------------------------------------------------------------------------------------------- method-style codecs
+
+func parseDir(fset *token.FileSet, dir string) []*ast.File {
+	ents, err := os.ReadDir(dir)
+	if err != nil {
+		fail("readdir %s: %v", dir, err)
+	}
+	var fs []*ast.File
+	for _, e := range ents {
+		n := e.Name()
+		if e.IsDir() || !strings.HasSuffix(n, ".go") || strings.HasSuffix(n, "_test.go") || strings.HasPrefix(n, "verif_") {
+			continue
+		}
+		f, err := parser.ParseFile(fset, filepath.Join(dir, n), nil, 0)
+		if err != nil {
+			fail("parse %s: %v", n, err)
+		}
+		fs = append(fs, f)
+	}
+	return fs
+}
+
+func fieldsIn(fs []*ast.File, typ string) []string {
+	for _, f := range fs {
+		if r := structFields(f, typ); len(r) > 0 {
+			return r
+		}
+	}
+	return nil
+}
+
+func methodsOf(fs []*ast.File, typ string) map[string]*ast.FuncDecl {
+	m := map[string]*ast.FuncDecl{}
+	for _, f := range fs {
+		for _, d := range f.Decls {
+			fd, ok := d.(*ast.FuncDecl)
+			if !ok || fd.Recv == nil || len(fd.Recv.List) != 1 || typeName(fd.Recv.List[0].Type) != typ {
+				continue
+			}
+			m[fd.Name.Name] = fd
+		}
+	}
+	return m
+}
+
+// receiverFields: the fields selected on the receiver inside the method body
+func receiverFields(fd *ast.FuncDecl, isField map[string]bool) map[string]bool {
+	res := map[string]bool{}
+	if fd == nil || fd.Body == nil || len(fd.Recv.List[0].Names) == 0 {
+		return res
+	}
+	recv := fd.Recv.List[0].Names[0].Name
+	ast.Inspect(fd.Body, func(n ast.Node) bool {
+		if se, ok := n.(*ast.SelectorExpr); ok {
+			if id, ok := se.X.(*ast.Ident); ok && id.Name == recv && isField[se.Sel.Name] {
+				res[se.Sel.Name] = true
+			}
+		}
+		return true
+	})
+	return res
+}
+
+func keysOf(m map[string]bool) []string {
+	r := []string{}
+	for k := range m {
+		r = append(r, k)
+	}
+	sort.Strings(r)
+	return r
+}
+
+type mspec struct {
+	Name, Dir, Type string
+	Enc, Dec        []string // method names
+}
+
+func extra(repo string, fset *token.FileSet, out map[string]any) {
+	exe := parseDir(fset, filepath.Join(repo, "engine/executor"))
+	ms := []mspec{
+		{"executor.ChunkImpl", "", "ChunkImpl", []string{"Marshal"}, []string{"Unmarshal"}},
+		{"executor.ColumnImpl", "", "ColumnImpl", []string{"Marshal"}, []string{"Unmarshal"}},
+		{"executor.ChunkTags", "", "ChunkTags", []string{"Marshal"}, []string{"Unmarshal"}},
+		{"executor.Bitmap", "", "Bitmap", []string{"Marshal"}, []string{"Unmarshal"}},
+		{"executor.floatTuple", "", "floatTuple", []string{"Marshal"}, []string{"Unmarshal"}},
+		{"executor.RemoteQuery", "", "RemoteQuery", []string{"Marshal", "MarshalMstInfos"}, []string{"Unmarshal", "UnmarshalMstInfos"}},
+		{"executor.Abort", "", "Abort", []string{"Marshal"}, []string{"Unmarshal"}},
+		{"executor.Crash", "", "Crash", []string{"Marshal"}, []string{"Unmarshal"}},
+		{"executor.Finish", "", "Finish", []string{"Marshal"}, []string{"Unmarshal"}},
+		{"executor.IncQueryFinish", "", "IncQueryFinish", []string{"Marshal"}, []string{"Unmarshal"}},
+		{"executor.Error", "", "Error", []string{"Marshal"}, []string{"Unmarshal"}},
+	}
+	for _, sp := range ms {
+		fields := fieldsIn(exe, sp.Type)
+		if len(fields) == 0 {
+			fail("struct %s not found", sp.Type)
+		}
+		isField := map[string]bool{}
+		for _, f := range fields {
+			isField[f] = true
+		}
+		meth := methodsOf(exe, sp.Type)
+		enc, dec := map[string]bool{}, map[string]bool{}
+		for _, m := range sp.Enc {
+			if meth[m] == nil {
+				fail("method %s.%s not found", sp.Type, m)
+			}
+			for k := range receiverFields(meth[m], isField) {
+				enc[k] = true
+			}
+		}
+		for _, m := range sp.Dec {
+			if meth[m] == nil {
+				fail("method %s.%s not found", sp.Type, m)
+			}
+			for k := range receiverFields(meth[m], isField) {
+				dec[k] = true
+			}
+		}
+		out[sp.Name] = map[string]any{"fields": fields, "encoded": keysOf(enc), "decoded": keysOf(dec)}
+	}
+	// slice-of-struct helpers with loop variables: ShardInfo, PtQuery, MultiMstInfo
+	type lspec struct{ Name, Type, Enc, Dec, Var string }
+	var all *ast.File
+	_ = all
+	findFn := func(name string) *ast.FuncDecl {
+		for _, f := range exe {
+			if fd := findFunc(f, name); fd != nil {
+				return fd
+			}
+		}
+		return nil
+	}
+	for _, sp := range []lspec{{"executor.ShardInfo", "ShardInfo", "MarshalShardInfos", "UnmarshalShardInfos", "shardInfo"},
+		{"executor.PtQuery", "PtQuery", "MarshalPtQuerys", "UnmarshalPtQuerys", "ptQuery"}} {
+		fields := fieldsIn(exe, sp.Type)
+		isField := map[string]bool{}
+		for _, f := range fields {
+			isField[f] = true
+		}
+		enc, dec := map[string]bool{}, map[string]bool{}
+		ef, df := findFn(sp.Enc), findFn(sp.Dec)
+		if ef == nil || df == nil || len(fields) == 0 {
+			fail("helpers for %s not found", sp.Type)
+		}
+		ast.Inspect(ef.Body, func(n ast.Node) bool {
+			if se, ok := n.(*ast.SelectorExpr); ok {
+				if id, ok := se.X.(*ast.Ident); ok && id.Name == sp.Var && isField[se.Sel.Name] {
+					enc[se.Sel.Name] = true
+				}
+			}
+			return true
+		})
+		ast.Inspect(df.Body, func(n ast.Node) bool {
+			if cl, ok := n.(*ast.CompositeLit); ok && typeName(cl.Type) == sp.Type {
+				for _, el := range cl.Elts {
+					if kv, ok := el.(*ast.KeyValueExpr); ok {
+						if id, ok := kv.Key.(*ast.Ident); ok && isField[id.Name] {
+							dec[id.Name] = true
+						}
+					}
+				}
+			}
+			return true
+		})
+		out[sp.Name] = map[string]any{"fields": fields, "encoded": keysOf(enc), "decoded": keysOf(dec)}
+	}
+	// QuerySchema: EncodeQuerySchema reads through getters, DecodeQuerySchema writes through the constructor's
+	// parameters (queryFields, columnNames, opt) and setters
+	qf := fieldsIn(exe, "QuerySchema")
+	isField := map[string]bool{}
+	for _, f := range qf {
+		isField[f] = true
+	}
+	qm := methodsOf(exe, "QuerySchema")
+	codec, err := parser.ParseFile(fset, filepath.Join(repo, "lib/util/lifted/influx/query/processor_codec.go"), nil, 0)
+	if err != nil {
+		fail("parse processor_codec.go: %v", err)
+	}
+	viaMethods := func(fn *ast.FuncDecl) map[string]bool {
+		res := map[string]bool{}
+		ast.Inspect(fn.Body, func(n ast.Node) bool {
+			if ce, ok := n.(*ast.CallExpr); ok {
+				if se, ok := ce.Fun.(*ast.SelectorExpr); ok {
+					if m := qm[se.Sel.Name]; m != nil {
+						if id, ok := se.X.(*ast.Ident); ok && id.Name == "schema" {
+							for k := range receiverFields(m, isField) {
+								res[k] = true
+							}
+						}
+					}
+				}
+			}
+			return true
+		})
+		return res
+	}
+	ef, df := findFunc(codec, "EncodeQuerySchema"), findFunc(codec, "DecodeQuerySchema")
+	if ef == nil || df == nil || len(qf) == 0 {
+		fail("QuerySchema codec not found")
+	}
+	enc, dec := viaMethods(ef), viaMethods(df)
+	// constructor parameters stored in fields
+	for _, f := range exe {
+		if ctor := findFunc(f, "NewQuerySchema"); ctor != nil {
+			params := map[string]bool{}
+			for _, p := range ctor.Type.Params.List {
+				for _, n := range p.Names {
+					params[n.Name] = true
+				}
+			}
+			ast.Inspect(ctor.Body, func(n ast.Node) bool {
+				if cl, ok := n.(*ast.CompositeLit); ok && typeName(cl.Type) == "QuerySchema" {
+					for _, el := range cl.Elts {
+						if kv, ok := el.(*ast.KeyValueExpr); ok {
+							k, _ := kv.Key.(*ast.Ident)
+							v, _ := kv.Value.(*ast.Ident)
+							if k != nil && v != nil && params[v.Name] && isField[k.Name] && v.Name != "sortFields" {
+								dec[k.Name] = true
+							}
+						}
+					}
+				}
+				return true
+			})
+		}
+	}
+	// the options travel separately (RemoteQuery.Opt) and are handed to DecodeQuerySchema: count as encoded
+	if dec["opt"] {
+		enc["opt"] = true
+	}
+	out["executor.QuerySchema"] = map[string]any{"fields": qf, "encoded": keysOf(enc), "decoded": keysOf(dec)}
+}
+
+// ---------------------------------------------------------------------------------------------- plan nodes
+
+// planNodes: for every type with a LogicPlanType method: is there a case in MarshalBinary / UnmarshalBinaryNode;
+// which fields of the node does its marshal case read; which protobuf fields does it write / does the unmarshal case
+// read; and the field lists of the node structs and their embedded bases.
+func planNodes(repo string, fset *token.FileSet) map[string]any {
+	exe := parseDir(fset, filepath.Join(repo, "engine/executor"))
+	var codec *ast.File
+	for _, f := range exe {
+		if findFunc(f, "UnmarshalBinaryNode") != nil {
+			codec = f
+		}
+	}
+	if codec == nil {
+		fail("logic_plan_codec.go not found")
+	}
+	types := []string{}
+	for _, f := range exe {
+		for _, d := range f.Decls {
+			if fd, ok := d.(*ast.FuncDecl); ok && fd.Recv != nil && fd.Name.Name == "LogicPlanType" {
+				types = append(types, typeName(fd.Recv.List[0].Type))
+			}
+		}
+	}
+	sort.Strings(types)
+	mb, ub := findFunc(codec, "MarshalBinary"), findFunc(codec, "UnmarshalBinaryNode")
+	type info struct {
+		InMarshal   bool     `json:"in_marshal"`
+		InUnmarshal bool     `json:"in_unmarshal"`
+		NodeFields  []string `json:"explicit_fields"`
+		PbWritten   []string `json:"pb_written"`
+		PbRead      []string `json:"pb_read"`
+		Fields      []string `json:"fields"`
+	}
+	res := map[string]*info{}
+	for _, t := range types {
+		res[t] = &info{Fields: fieldsIn(exe, t)}
+	}
+	pbSel := func(n ast.Node, write bool) map[string]bool {
+		m := map[string]bool{}
+		ast.Inspect(n, func(x ast.Node) bool {
+			switch y := x.(type) {
+			case *ast.AssignStmt:
+				if write {
+					for _, l := range y.Lhs {
+						if se, ok := l.(*ast.SelectorExpr); ok {
+							if id, ok := se.X.(*ast.Ident); ok && id.Name == "pb" {
+								m[se.Sel.Name] = true
+							}
+						}
+					}
+				}
+			case *ast.SelectorExpr:
+				if !write {
+					if id, ok := y.X.(*ast.Ident); ok && id.Name == "pb" {
+						m[strings.TrimPrefix(y.Sel.Name, "Get")] = true
+					}
+				}
+			}
+			return true
+		})
+		delete(m, "Inputs")
+		delete(m, "Name")
+		return m
+	}
+	// marshal: type switch cases
+	ast.Inspect(mb.Body, func(n ast.Node) bool {
+		ts, ok := n.(*ast.TypeSwitchStmt)
+		if !ok {
+			return true
+		}
+		for _, st := range ts.Body.List {
+			cc := st.(*ast.CaseClause)
+			for _, te := range cc.List {
+				t := typeName(te)
+				in := res[t]
+				if in == nil {
+					continue
+				}
+				// a case that only returns nil, nil does not marshal
+				in.InMarshal = false
+				nf := map[string]bool{}
+				for _, b := range cc.Body {
+					ast.Inspect(b, func(x ast.Node) bool {
+						if ce, ok := x.(*ast.CallExpr); ok {
+							if id, ok := ce.Fun.(*ast.Ident); ok && id.Name == "Marshal" {
+								in.InMarshal = true
+							}
+						}
+						if se, ok := x.(*ast.SelectorExpr); ok {
+							if id, ok := se.X.(*ast.Ident); ok && id.Name == "p" {
+								nf[se.Sel.Name] = true
+							}
+							// p.LimitPara.Limit style
+							if inner, ok := se.X.(*ast.SelectorExpr); ok {
+								if id, ok := inner.X.(*ast.Ident); ok && id.Name == "p" {
+									nf[inner.Sel.Name] = true
+									nf[se.Sel.Name] = true
+								}
+							}
+						}
+						return true
+					})
+					for k := range pbSel(b, true) {
+						in.PbWritten = append(in.PbWritten, k)
+					}
+				}
+				delete(nf, "inputs")
+				delete(nf, "left")
+				delete(nf, "right")
+				delete(nf, "Schema")
+				in.NodeFields = keysOf(nf)
+				sort.Strings(in.PbWritten)
+			}
+		}
+		return false
+	})
+	// unmarshal: switch pb.Name cases
+	ast.Inspect(ub.Body, func(n ast.Node) bool {
+		sw, ok := n.(*ast.SwitchStmt)
+		if !ok {
+			return true
+		}
+		if se, ok := sw.Tag.(*ast.SelectorExpr); !ok || se.Sel.Name != "Name" {
+			return true
+		}
+		for _, st := range sw.Body.List {
+			cc := st.(*ast.CaseClause)
+			for _, te := range cc.List {
+				se, ok := te.(*ast.SelectorExpr)
+				if !ok {
+					continue
+				}
+				t := strings.TrimPrefix(se.Sel.Name, "LogicPlanType_")
+				in := res[t]
+				if in == nil {
+					continue
+				}
+				for _, b := range cc.Body {
+					ast.Inspect(b, func(x ast.Node) bool {
+						if r, ok := x.(*ast.ReturnStmt); ok && len(r.Results) == 2 {
+							if id, ok := r.Results[1].(*ast.Ident); ok && id.Name == "nil" {
+								in.InUnmarshal = true
+							}
+						}
+						return true
+					})
+					for k := range pbSel(b, false) {
+						in.PbRead = append(in.PbRead, k)
+					}
+				}
+				sort.Strings(in.PbRead)
+			}
+		}
+		return false
+	})
+	out := map[string]any{}
+	for k, v := range res {
+		out[k] = v
+	}
+	bases := map[string][]string{}
+	for _, b := range []string{"LogicalPlanBase", "LogicalPlanSingle", "LogicalPlanMulti", "LogicalExchangeBase", "LimitTransformParameters"} {
+		bases[b] = fieldsIn(exe, b)
+	}
+	out["_bases"] = bases
+	return out
 }
